@@ -97,9 +97,9 @@ def check_state(h):
     except R.FormatError as e:
         viol.append((f"C07:unparsable:{e.code}", f"{e} | history={h}"))
     tags = []
-    if h and h[0] not in ('O', 'O5') and ('O' in h or 'O5' in h):
+    if h and h[0] not in ('O', 'O5', 'O0') and ('O' in h or 'O5' in h or 'O0' in h):
         tags.append('origin-later')
-    if not ('O' in h or 'O5' in h):
+    if not ('O' in h or 'O5' in h or 'O0' in h):
         tags.append('origin-last')
     if any(hist.count(h, e) > 1 for e in ('AX', 'ZN', 'CH', 'PA', 'GR', 'FR')):
         tags.append('same-name')
